@@ -11,6 +11,7 @@ import (
 	"os/exec"
 	"runtime"
 	"sync"
+	"syscall"
 	"testing"
 	"time"
 
@@ -67,6 +68,7 @@ type checkImpl struct {
 var impls = map[string]*checkImpl{}
 
 func testDriver(t *testing.T) {
+	syscall.Umask(0o027) // modes must be set explicitly by the code under test, not inherited from mkdir/open
 	switch {
 	case *flagWorker:
 		workerMain(t)
